@@ -2,6 +2,8 @@ import Driver.VMStage
 import Driver.FrontStage
 import Driver.LRStage
 import Driver.WFStage
+import Driver.SemStage
+import Driver.ShapeStage
 
 open Theo.Drv
 
@@ -17,6 +19,8 @@ def handle (line : String) : String :=
   | "GEN" :: rest => handleGen rest
   | "LR" :: rest => handleLR rest
   | "WF" :: rest => handleWF rest
+  | "SEM" :: rest => handleSem rest
+  | "SHAPE" :: rest => handleShape rest
   | _ => "BADREQ"
 
 partial def loop (h : IO.FS.Stream) (out : IO.FS.Stream) : IO Unit := do
